@@ -138,10 +138,25 @@ static Lab *build_lab(const LabKey &k)
 struct Outcome { size_t delivered = 0; bool closed = false; int err = 0; bool failed_by_wire_end = false; bool marked = false; };
 
 // feed `wire` (+ filler) to a restored victim under a chunking policy
+// White-box fast-forward: once exactly g_poke_at bytes of the stream have been taken, the victim's incoming record
+// sequence number is advanced by g_poke_add (nobody can send 2^32 records in a test; the counter is a plain
+// 64-bit field of the record-decryption context).
+static size_t g_poke_at = (size_t)-1;
+static uint64_t g_poke_add = 0;
+static void poke_in_seq(Lab *L, BearEndpoint *v, uint64_t add)
+{
+	br_ssl_engine_context *e = v->eng;
+	if (wt::is_cbc(L->si->cipher)) e->in.cbc.seq += add;
+	else if (wt::is_gcm(L->si->cipher)) e->in.gcm.seq += add;
+	else if (wt::is_ccm(L->si->cipher)) e->in.ccm.seq += add;
+	else e->in.chapol.seq += add;
+}
+
 static Outcome replay(Lab *L, const Bytes &wire, unsigned chunk_mode, size_t filler, const Bytes *extra_plain = nullptr, size_t extra_at = 0)
 {
 	if (L->key.victim == 0) snap_restore(*L->c, L->snap); else snap_restore(*L->s, L->snap);
 	BearEndpoint *v = L->victim;
+	bool poked = false;
 	Outcome o;
 	size_t pos = 0, total = wire.size() + filler;
 	unsigned phase = 0;
@@ -167,6 +182,7 @@ static Outcome replay(Lab *L, const Bytes &wire, unsigned chunk_mode, size_t fil
 			progress = true;
 		}
 		if ((n = v->wire_out_peek(&p)) > 0) { v->wire_out_ack(n); progress = true; }
+		if (pos == g_poke_at && !poked) { poked = true; poke_in_seq(L, v, g_poke_add); }
 		size_t room = v->wire_in_room();
 		if (room && pos < total) {
 			size_t k;
@@ -180,6 +196,7 @@ static Outcome replay(Lab *L, const Bytes &wire, unsigned chunk_mode, size_t fil
 			if (k > total - pos) k = total - pos;
 			if (pos < wire.size()) {
 				if (k > wire.size() - pos) k = wire.size() - pos;
+				if (pos < g_poke_at && g_poke_at != (size_t)-1 && k > g_poke_at - pos) k = g_poke_at - pos;
 				v->wire_in(wire.data() + pos, k);
 			} else {
 				k = room < total - pos ? room : total - pos;   // filler always in large pieces
@@ -383,6 +400,25 @@ static void run_fault(Lab *L, unsigned fclass, size_t ri, unsigned chunk_mode, u
 				Outcome o = send(c.encrypt(23, ver, pt, plen, v[i].o), chunk_mode + i);
 				expect_reject(L, o, ri, base + " crafted with " + v[i].n);
 				stats.eval(key(v[i].n));
+			}
+			// the same two questions 2^k records later (k = 8 .. 56): the victim's counter is fast-forwarded at the record
+			// boundary; a record made for the new number is accepted (control: the counter is a full 64-bit value on both
+			// sides), the record of 2^k records ago - a replay from the distant past - is refused
+			for (unsigned kb = 8; kb <= 56; kb += 8) {
+				uint64_t add = 1ULL << kb;
+				g_poke_at = pre.size(); g_poke_add = add;
+				wt::RecCodec cf = c0;
+				wt::EncOpts eo;
+				eo.use_seq = true; eo.seq = c0.seq + add;
+				Outcome of = send(cf.encrypt(23, ver, pt, plen, eo), chunk_mode + kb);
+				wt::RecCodec cr = c0;
+				Outcome orp = send(cr.encrypt(23, ver, pt, plen), chunk_mode + kb);
+				g_poke_at = (size_t)-1; g_poke_add = 0;
+				VF_CHECK(of.delivered == L->offs[ri] + plen, "%s: %s: record number n+2^%u (victim fast-forwarded by 2^%u): not delivered (%zu, want %zu; err %d): the sequence number is not a 64-bit counter", L->desc.c_str(), base.c_str(),
+					kb, kb, of.delivered, L->offs[ri] + plen, of.err);
+				expect_reject(L, orp, ri, base + fmt(" record number n replayed 2^%u records later", kb));
+				expect_immediate(L, orp, ri, base + fmt(" record number n replayed 2^%u records later", kb));
+				stats.eval(key(fmt("far-replay-2^%u", kb)));
 			}
 			// control: the same record with the right sequence number is accepted
 			wt::RecCodec c = c0;
